@@ -626,19 +626,30 @@ api_mul(unsigned char *G, size_t Glen,
 	uint32_t a[9], aa[9], b[9], bb[9];
 	uint32_t c[9], d[9], e[9], da[9], cb[9];
 	unsigned char k[32];
-	uint32_t swap;
+	uint32_t swap, kz;
 	int i;
 
 	(void)curve;
 
 	/*
 	 * Points are encoded over exactly 32 bytes. Multipliers must fit
-	 * in 32 bytes as well.
+	 * in 32 bytes as well (not counting leading bytes of value zero).
 	 * RFC 7748 mandates that the high bit of the last point byte must
 	 * be ignored/cleared.
 	 */
-	if (Glen != 32 || kblen > 32) {
+	if (Glen != 32) {
 		return 0;
+	}
+
+	/*
+	 * The unsigned big-endian encoding of the multiplier may use
+	 * extra leading bytes of value zero, as with the other curves.
+	 */
+	kz = 0;
+	while (kblen > 32) {
+		kz |= *kb;
+		kb ++;
+		kblen --;
 	}
 	G[31] &= 0x7F;
 
@@ -751,7 +762,7 @@ api_mul(unsigned char *G, size_t Glen,
 	f255_mul(x2, x2, b);
 	reduce_final_f255(x2);
 	le30_to_le8(G, 32, x2);
-	return 1;
+	return EQ(kz, 0);
 }
 
 static size_t
